@@ -1,8 +1,244 @@
 /-
 C14 — Entry objects are coherent: getters reflect setters, clones are equal.
+
+Property theorems over `LA.Entry` (model of archive_entry.c, archive_entry_sparse.c,
+archive_entry_xattr.c, archive_entry_stat.c, archive_entry_copy_stat.c,
+archive_entry_strmode.c).  Helper lemmas: LA/Lemmas/Entry*.lean.
+
+Reading guide.  `Op` is the alphabet of calls (setters, unsetters, copy_stat, clear
+and the state-changing iterator/“getter” calls), `run e ops` a finite history
+(`none` = some call executed undefined behaviour, which only FIX_NS can do),
+`Getter`/`obs` the public getters, `Getter.group` the group of fields a getter
+reads and `touches op G` whether a call can change that group.
 -/
-import LA.Model.Entry
+import LA.Lemmas.EntryHist
+set_option linter.unusedSimpArgs false
+set_option maxRecDepth 4000
 namespace LA.C14
-open LA.Entry
+open LA.Entry LA.Gen.EntryBits
+
+/-! ## nanoseconds normalised into seconds (the FIX_NS macro) -/
+
+/-- Inside the no-overflow range the macro yields `0 ≤ nsec < 10^9`, preserves the
+instant `sec·10^9 + nsec`, and the seconds are the floor quotient — for **all**
+integers `t` (an int64) and `ns` (any integer, in particular any `long`). -/
+theorem fix_ns_normalised (t ns : Int) (ht : inI64 t = true)
+    (hq : inI64 ((t * 1000000000 + ns) / 1000000000) = true) :
+    ∃ t' ns', fixNs t ns = some (t', ns') ∧ 0 ≤ ns' ∧ ns' < 1000000000 ∧
+      t' * 1000000000 + ns' = t * 1000000000 + ns ∧ inI64 t' = true ∧
+      t' = (t * 1000000000 + ns) / 1000000000 := by
+  refine ⟨(t * 1000000000 + ns) / 1000000000, (t * 1000000000 + ns) % 1000000000, ?_, ?_, ?_, ?_, hq, rfl⟩
+  · rw [fixNs_spec t ns ht, if_pos hq]
+  · omega
+  · omega
+  · omega
+
+/-- The boundary, exactly as the C has it: the macro is undefined (signed overflow of
+`t += ns / 1000000000` or of `--t`) precisely when the normalised seconds do not fit
+an int64.  Finding C14/fixns-overflow. -/
+theorem fix_ns_undefined_iff (t ns : Int) (ht : inI64 t = true) :
+    fixNs t ns = none ↔ inI64 ((t * 1000000000 + ns) / 1000000000) = false := by
+  rw [fixNs_spec t ns ht]
+  cases h : inI64 ((t * 1000000000 + ns) / 1000000000) <;> simp
+
+example : fixNs 5 (-1) = some (4, 999999999) := by decide
+example : fixNs (-1) 2000000001 = some (1, 1) := by decide
+example : fixNs INT64_MAX 999999999 = some (INT64_MAX, 999999999) := by decide
+example : fixNs (INT64_MIN + 1) (-1000000000) = some (INT64_MIN, 0) := by decide
+/-- witnesses of the undefined cases replayed on the implementation by the engine -/
+example : fixNs INT64_MAX 1000000000 = none ∧ fixNs INT64_MIN (-1) = none := by decide
+
+/-! ## getters reflect setters, one setter at a time -/
+
+/-- `set_atime/birthtime/ctime/mtime`: the getters return the normalised time and the flag is set. -/
+theorem time_get_set (f : TimeField) (e e' : Entry) (t ns : Int) (ht : inI64 t = true)
+    (h : setTime f e t ns = some e') :
+    timeSec f e' = (t * 1000000000 + ns) / 1000000000 ∧
+    (timeNsec f e' : Int) = (t * 1000000000 + ns) % 1000000000 ∧ timeIsSet f e' = true := by
+  simp only [setTime, fixNs_spec t ns ht] at h
+  by_cases hq : inI64 ((t * 1000000000 + ns) / 1000000000) = true
+  · simp only [hq, if_true, Option.map_some, Option.some.injEq] at h
+    subst h
+    have hnn : 0 ≤ (t * 1000000000 + ns) % 1000000000 := by omega
+    cases f <;>
+      simp (disch := decide) [setTimeCore, Entry.withTime, timeSec, timeNsec, timeIsSet, Entry.has, TimeField.flag,
+        hasF_or_self, Int.toNat_of_nonneg hnn] <;> omega
+  · simp [hq] at h
+
+example : ∃ e', setTime .mtime new 5 (-1) = some e' ∧ timeSec .mtime e' = 4 ∧ timeNsec .mtime e' = 999999999 := by
+  refine ⟨_, rfl, by decide, by decide⟩
+
+/-- `unset_atime …`: always defined; time 0, flag cleared. -/
+theorem time_unset (f : TimeField) (e : Entry) :
+    ∃ e', unsetTime f e = some e' ∧ timeSec f e' = 0 ∧ timeNsec f e' = 0 ∧ timeIsSet f e' = false := by
+  refine ⟨_, unsetTime_eq f e, ?_⟩
+  cases f <;>
+    simp (disch := decide) [unsetTimeCore, setTimeCore, Entry.withTime, timeSec, timeNsec, timeIsSet, Entry.has,
+      TimeField.flag, hasF_andnot_self]
+
+theorem u64ToI64_of_small (n : Int) (h0 : 0 ≤ n) (h1 : n ≤ 9223372036854775807) : u64ToI64 n.toNat = n := by
+  unfold u64ToI64 two64
+  have : (n.toNat : Int) = n := Int.toNat_of_nonneg h0
+  have h2 : n.toNat % 18446744073709551616 = n.toNat := Nat.mod_eq_of_lt (by omega)
+  rw [h2]
+  split <;> omega
+
+/-- `set_size`: negative becomes 0; the value survives the `uint64_t` field and the
+`la_int64_t` return type for every int64 argument. -/
+theorem size_get_set (e : Entry) (s : Int) (hs : inI64 s = true) :
+    size (setSize e s) = max s 0 ∧ sizeIsSet (setSize e s) = true := by
+  rw [inI64_iff] at hs
+  constructor
+  · simp only [size, setSize]
+    split
+    · rw [u64ToI64_of_small 0 (by omega) (by omega)]; omega
+    · rw [u64ToI64_of_small s (by omega) (by omega)]; omega
+  · simp (disch := decide) [sizeIsSet, setSize, Entry.has, hasF_or_self]
+
+theorem size_unset (e : Entry) : size (unsetSize e) = 0 ∧ sizeIsSet (unsetSize e) = false := by
+  constructor
+  · simp [size, unsetSize, setSize, u64ToI64]
+  · simp (disch := decide) [sizeIsSet, unsetSize, setSize, Entry.has, hasF_andnot_self]
+
+theorem uid_get_set (e : Entry) (u : Int) : uid (setUid e u) = max u 0 ∧ uidIsSet (setUid e u) = true := by
+  constructor
+  · simp only [uid, setUid]; split <;> omega
+  · simp (disch := decide) [uidIsSet, setUid, Entry.has, hasF_or_self]
+theorem gid_get_set (e : Entry) (g : Int) : gid (setGid e g) = max g 0 ∧ gidIsSet (setGid e g) = true := by
+  constructor
+  · simp only [gid, setGid]; split <;> omega
+  · simp (disch := decide) [gidIsSet, setGid, Entry.has, hasF_or_self]
+/-- `set_ino` and `set_ino64`; `ino` and `ino64` -/
+theorem ino_get_set (e : Entry) (i : Int) : ino (setIno e i) = max i 0 ∧ inoIsSet (setIno e i) = true := by
+  constructor
+  · simp only [ino, setIno]; split <;> omega
+  · simp (disch := decide) [inoIsSet, setIno, Entry.has, hasF_or_self]
+theorem nlink_get_set (e : Entry) (n : Nat) : nlink (setNlink e n) = n % 4294967296 := rfl
+
+example : size (setSize new (-1)) = 0 ∧ size (setSize new INT64_MAX) = INT64_MAX := by decide
+
+/-! ### split versus combined device numbers -/
+
+theorem dev_get_set (e : Entry) (d : Nat) :
+    dev (setDev e d) = d % two64 ∧ devmajor (setDev e d) = gnuMajor (d % two64) ∧
+    devminor (setDev e d) = gnuMinor (d % two64) ∧ devIsSet (setDev e d) = true := by
+  simp (disch := decide) [dev, devmajor, devminor, devIsSet, setDev, Entry.has, hasF_or_self]
+
+/-- after `set_devmajor a; set_devminor b` (either order) the combined number is `makedev(a, b)` -/
+theorem dev_of_major_minor (e : Entry) (a b : Nat) :
+    dev (setDevminor (setDevmajor e a) b) = gnuMakedev (a % two64) (b % two64) ∧
+    dev (setDevmajor (setDevminor e b) a) = gnuMakedev (a % two64) (b % two64) ∧
+    devmajor (setDevminor (setDevmajor e a) b) = a % two64 ∧ devminor (setDevminor (setDevmajor e a) b) = b % two64 := by
+  simp [dev, devmajor, devminor, setDevmajor, setDevminor]
+
+/-- a later `set_dev` wins over earlier split values, a later `set_devmajor` over an earlier combined one -/
+theorem dev_last_writer (e : Entry) (a b d : Nat) :
+    dev (setDev (setDevminor (setDevmajor e a) b) d) = d % two64 ∧
+    devmajor (setDevmajor (setDev e d) a) = a % two64 := by
+  simp [dev, devmajor, setDev, setDevmajor, setDevminor]
+
+theorem rdev_get_set (e : Entry) (d : Nat) :
+    rdev (setRdev e d) = d % two64 ∧ rdevmajor (setRdev e d) = gnuMajor (d % two64) ∧
+    rdevminor (setRdev e d) = gnuMinor (d % two64) ∧ rdevIsSet (setRdev e d) = true := by
+  simp (disch := decide) [rdev, rdevmajor, rdevminor, rdevIsSet, setRdev, Entry.has, hasF_or_self]
+
+theorem rdev_of_major_minor (e : Entry) (a b : Nat) :
+    rdev (setRdevminor (setRdevmajor e a) b) = gnuMakedev (a % two64) (b % two64) ∧
+    rdevmajor (setRdevminor (setRdevmajor e a) b) = a % two64 ∧
+    rdevminor (setRdevminor (setRdevmajor e a) b) = b % two64 := by
+  simp (disch := decide) [rdev, rdevmajor, rdevminor, rdevIsSet, setRdevmajor, setRdevminor, Entry.has, hasF_or_self,
+    hasF_or_disj]
+
+example : dev (setDevminor (setDevmajor new 8) 1) = 2049 ∧ devmajor (setDev new 2049) = 8 ∧ devminor (setDev new 2049) = 1 := by
+  decide
+
+/-! ### file type versus permission bits inside mode -/
+
+theorem mode_get_set (e : Entry) (m : BitVec 32) :
+    mode (setMode e m) = m ∧ filetype (setMode e m) = mIFMT &&& m ∧ perm (setMode e m) = ~~~mIFMT &&& m ∧
+    filetypeIsSet (setMode e m) = true ∧ permIsSet (setMode e m) = true := by
+  simp (disch := decide) [mode, filetype, perm, filetypeIsSet, permIsSet, setMode, Entry.has, hasF_or_assoc, hasF_or_self,
+    hasF_or_disj]
+
+/-- `set_filetype` sets the type bits and leaves every permission bit alone -/
+theorem filetype_get_set (e : Entry) (t : BitVec 32) :
+    filetype (setFiletype e t) = mIFMT &&& t ∧ perm (setFiletype e t) = perm e ∧
+    filetypeIsSet (setFiletype e t) = true ∧ permIsSet (setFiletype e t) = permIsSet e := by
+  simp (disch := decide) [filetype, perm, filetypeIsSet, permIsSet, setFiletype, Entry.has, hasF_or_self, hasF_or_disj,
+    bv_ft_ft, bv_ft_perm]
+
+/-- `set_perm` sets the non-type bits and leaves the file type alone -/
+theorem perm_get_set (e : Entry) (p : BitVec 32) :
+    perm (setPerm e p) = ~~~mIFMT &&& p ∧ filetype (setPerm e p) = filetype e ∧
+    permIsSet (setPerm e p) = true ∧ filetypeIsSet (setPerm e p) = filetypeIsSet e := by
+  simp (disch := decide) [filetype, perm, filetypeIsSet, permIsSet, setPerm, Entry.has, hasF_or_self, hasF_or_disj,
+    bv_perm_perm, bv_perm_ft]
+
+/-- the mode word is exactly its two parts -/
+theorem mode_eq_filetype_or_perm (e : Entry) : mode e = filetype e ||| perm e := by
+  simp [mode, filetype, perm, bv_split]
+
+example : filetype (setPerm (setFiletype new 0o040000#32) 0o755#32) = 0o040000#32 ∧
+    mode (setPerm (setFiletype new 0o040000#32) 0o755#32) = 0o040755#32 := by decide
+
+/-! ### strings; hard-link versus symlink target -/
+
+theorem str_get_set (f : StrField) (e : Entry) (v : Option Bytes) : getStr f (setStr f e v) = v := by
+  cases f <;> rfl
+
+/-- every hard-link setter with a non-NULL target: `hardlink()` returns it, `symlink()` returns NULL -/
+theorem hardlink_get_set (e : Entry) (s : Bytes) :
+    hardlink (setHardlink e (some s)) = some s ∧ symlink (setHardlink e (some s)) = none ∧
+    hardlink (copyHardlink e (some s)) = some s ∧ symlink (copyHardlink e (some s)) = none := by
+  simp (disch := decide) [hardlink, symlink, setHardlink, copyHardlink, Entry.has, hasF_or_self, hasF_andnot_self,
+    hasF_or_disj, hasF_andnot_disj]
+
+/-- every symlink setter with a non-NULL target -/
+theorem symlink_get_set (e : Entry) (s : Bytes) :
+    symlink (setSymlink e (some s)) = some s ∧ hardlink (setSymlink e (some s)) = none := by
+  simp (disch := decide) [hardlink, symlink, setSymlink, Entry.has, hasF_or_self, hasF_andnot_self,
+    hasF_or_disj, hasF_andnot_disj]
+
+/-- NULL to a hard-link setter clears the hard link and never disturbs a symlink; and symmetrically
+(on an entry whose two link flags are not both set — an invariant of every history, see
+`hardlink_symlink_exclusive`). -/
+theorem link_set_null (e : Entry) (hx : ¬(e.has fHARDLINK = true ∧ e.has fSYMLINK = true)) :
+    hardlink (setHardlink e none) = none ∧ symlink (setHardlink e none) = symlink e ∧
+    hardlink (copyHardlink e none) = none ∧ symlink (copyHardlink e none) = symlink e ∧
+    symlink (setSymlink e none) = none ∧ hardlink (setSymlink e none) = hardlink e := by
+  simp only [Entry.has] at hx
+  rcases Bool.eq_false_or_eq_true (hasF e.ae_set fHARDLINK) with h1 | h1 <;>
+    rcases Bool.eq_false_or_eq_true (hasF e.ae_set fSYMLINK) with h2 | h2 <;>
+    simp (disch := decide) [hardlink, symlink, setHardlink, copyHardlink, setSymlink, Entry.has, h1, h2, hasF_or_self,
+      hasF_andnot_self, hasF_or_disj, hasF_andnot_disj] at hx ⊢
+
+/-- `set_link` & co.: "set symlink if symlink is already set, else set hardlink" -/
+theorem link_get_set (e : Entry) (v : Option Bytes) :
+    (symlink e ≠ none ∨ e.has fSYMLINK = true → symlink (setLink e v) = v) ∧
+    (e.has fSYMLINK = false → hardlink (setLink e v) = v ∧ symlink (setLink e v) = none) := by
+  rcases Bool.eq_false_or_eq_true (hasF e.ae_set fSYMLINK) with h2 | h2 <;>
+    simp (disch := decide) [hardlink, symlink, setLink, Entry.has, h2, hasF_or_self, hasF_or_disj]
+
+example : hardlink (copyHardlink (setSymlink new (some [97])) (some [98])) = some [98] ∧
+    symlink (copyHardlink (setSymlink new (some [97])) (some [98])) = none := by decide
+
+/-! ### the small fields -/
+
+theorem fflags_get_set (e : Entry) (s c : Nat) : fflags (setFflags e s c) = (s % two64, c % two64) := rfl
+theorem symlink_type_get_set (e : Entry) (t : Int) : symlinkType (setSymlinkType e t) = t := rfl
+theorem mac_metadata_get_set (e : Entry) (v : Option Bytes) : macMetadata (copyMacMetadata e v) = normMac v := rfl
+
+theorem bv8_or_and_self (x a : BitVec 8) : (x ||| a) &&& a = a := bv_or_and_self x a
+
+theorem encryption_get_set (e : Entry) (b : Bool) :
+    isDataEncrypted (setIsDataEncrypted e b) = b ∧
+    isMetadataEncrypted (setIsDataEncrypted e b) = isMetadataEncrypted e ∧
+    isMetadataEncrypted (setIsMetadataEncrypted e b) = b ∧
+    isDataEncrypted (setIsMetadataEncrypted e b) = isDataEncrypted e := by
+  cases b <;>
+    simp (disch := decide) [isDataEncrypted, isMetadataEncrypted, setIsDataEncrypted, setIsMetadataEncrypted,
+      bv_or_and_self, bv_andnot_and_self, bv_or_and_disj, bv_andnot_and_disj] <;> decide
+
+example : isEncrypted (setIsMetadataEncrypted (setIsDataEncrypted new true) true) = 3 := by decide
 
 end LA.C14
